@@ -18,7 +18,7 @@ type propDef struct {
 	// nontrivial decides, from the finished run, whether it counts
 	nontrivial func(res *RunResult) bool
 	// probes that must be non-zero over a whole batch, else the check is vacuous (exit 2)
-	needProbes   []string
+	needProbes      []string
 	quickRuns       int
 	thoroughRuns    int
 	quickSeconds    int
